@@ -72,11 +72,7 @@ func (c *StringScanner) Read() rune {
 	// Update the current position
 	c.position++
 
-	if c.position >= len(c.content) {
-		return -1
-	}
-
-	// Update line and columns
+	// Update line and columns (the end-of-input slot counts as one column)
 	charBefore := c.charAt(c.position - 1)
 	charAt := c.charAt(c.position)
 	charAfter := c.charAt(c.position + 1)
@@ -113,6 +109,11 @@ func (c *StringScanner) Peek() rune {
 // PeekLine gets the next character line number
 //	Returns: the next character line number in the stream
 func (c *StringScanner) PeekLine() int {
+	// The next read does not move when the end-of-input slot is already consumed
+	if (c.position + 1) > len(c.content) {
+		return c.line
+	}
+
 	charBefore := c.charAt(c.position)
 	charAt := c.charAt(c.position + 1)
 	charAfter := c.charAt(c.position + 2)
@@ -126,6 +127,11 @@ func (c *StringScanner) PeekLine() int {
 // PeekColumn gets the next character column
 //	Returns: the next character column in the stream
 func (c *StringScanner) PeekColumn() int {
+	// The next read does not move when the end-of-input slot is already consumed
+	if (c.position + 1) > len(c.content) {
+		return c.column
+	}
+
 	charBefore := c.charAt(c.position)
 	charAt := c.charAt(c.position + 1)
 	charAfter := c.charAt(c.position + 2)
@@ -143,20 +149,30 @@ func (c *StringScanner) PeekColumn() int {
 // Unread puts the specified character to the top of the stream.
 func (c *StringScanner) Unread() {
 	// Skip if we are at the beginning
-	if c.position < -1 {
+	if c.position < 0 {
 		return
 	}
+
+	// The character that is put back and its neighbours
+	unreadBefore := c.charAt(c.position - 1)
+	unreadAt := c.charAt(c.position)
+	unreadAfter := c.charAt(c.position + 1)
 
 	// Update the current position
 	c.position--
 
-	// Update line and columns (optimization)
-	if c.column > 0 {
+	// Update line and columns (optimization): a character that occupied a column
+	// is taken back from the current line...
+	if c.isColumn(unreadAt) {
 		c.column--
 		return
 	}
+	// ...and a CR glued to an LF occupied neither a line nor a column
+	if !c.isLine(unreadBefore, unreadAt, unreadAfter) {
+		return
+	}
 
-	// Update line and columns (full version)
+	// Update line and columns (full version): a line break was put back
 	c.line = 1
 	c.column = 0
 
